@@ -17,3 +17,67 @@ package proj
 //@   requires [nonnil] self != nil
 //@   ensures [function] biteq(x, TX(self, X, Y)) && biteq(y, TY(self, X, Y)) && err == TE(self, X, Y)
 //@   modifies nothing
+
+//@ -- ------------------------------------------------- C10: NewTransform closure
+//@ -- Callees of the closure that are outside the verified subset (reflection,
+//@ -- registry maps, the projection constructors) get trusted contracts; they
+//@ -- are listed as assumptions in the evidence.
+
+//@ func (sr *SR) Equal
+//@   trusted reflect-based field comparison (Proj.go: equal); compares datum through the pointer, so Equal SRs have the same datum type
+//@   opt writes=none
+//@   requires [nonnil] sr != nil && sr2 != nil
+//@   ensures [same_datum_type] result && sr.datum != nil && sr2.datum != nil ==> sr.datum.datum_type == sr2.datum.datum_type
+//@   ensures [same_datum_code] result ==> sr.DatumCode == sr2.DatumCode
+//@   modifies nothing
+
+//@ func Parse
+//@   trusted registry lookup / parsers (C20); for the registered name WGS84 the result is the shared definition whose datum type is pjdWGS84
+//@   opt writes=SR,datum,alloc
+//@   ensures [ok] result1 == nil ==> result0 != nil && result0.datum != nil && len(result0.Axis) == 3
+//@   ensures [wgs84] result1 == nil && code == "WGS84" ==> result0.datum.datum_type == pjdWGS84 && result0.DatumCode == "WGS84"
+//@   modifies nothing
+
+//@ func (sr *SR) Transformers
+//@   trusted projection table lookup and constructor (C08/C09); the constructors normalise NaN defaults in *sr (idempotent) and leave the fields below alone
+//@   opt writes=SR,alloc
+//@   requires [nonnil] sr != nil
+//@   ensures [ok] err == nil ==> forward != nil && inverse != nil
+//@   ensures [keeps] sr.Name == old(sr.Name) && sr.Axis == old(sr.Axis) && biteq(sr.ToMeter, old(sr.ToMeter)) && biteq(sr.FromGreenwich, old(sr.FromGreenwich)) && sr.datum == old(sr.datum) && sr.DatumCode == old(sr.DatumCode)
+//@   modifies *sr
+
+//@ func datumTransform
+//@   trusted verified separately under C09 (datum_transform.go)
+//@   opt writes=none
+//@   requires [nonnil] source != nil && dest != nil
+//@   modifies nothing
+
+//@ func adjust_axis
+//@   prop C10
+//@   mode real
+//@   requires [crs] crs != nil && len(crs.Axis) == 3
+//@   requires [point] len(point) == 2 || len(point) == 3
+//@   ensures [same_slice] result1 == nil ==> result0 == point
+//@   ensures [error_nil] result1 != nil ==> result0 == nil
+//@   modifies point
+//@   loop 1 `for i := 0; i < 3; i++`
+//@     invariant [axes] 0 <= i && i <= 3
+//@     decreases 3 - i
+
+//@ func (source *SR) NewTransform
+//@   prop C10, C20
+//@   mode real
+//@   requires [nonnil] source != nil
+//@   ensures [nil_dest] dest == nil ==> result1 != nil && result0 == nil
+//@   ensures [transformer] dest != nil ==> result1 == nil
+//@   ensures [nil_only_if_equal] dest != nil && result0 == nil ==> source.DatumCode == dest.DatumCode && (source.datum != nil && dest.datum != nil ==> source.datum.datum_type == dest.datum.datum_type)
+//@   modifies nothing
+
+//@ func (source *SR) NewTransform$1
+//@   prop C10
+//@   mode real
+//@   opt noframe=SR
+//@   requires [captured] *source != nil && *dest != nil && (*source).datum != nil && (*dest).datum != nil && len((*source).Axis) == 3 && len((*dest).Axis) == 3
+//@   ensures [captured_kept] *source == old(*source) && *dest == old(*dest)
+//@   ensures [state_equiv] (*source).Name == old((*source).Name) && (*source).Axis == old((*source).Axis) && biteq((*source).ToMeter, old((*source).ToMeter)) && biteq((*source).FromGreenwich, old((*source).FromGreenwich)) && (*source).datum == old((*source).datum) && (*dest).Name == old((*dest).Name) && (*dest).Axis == old((*dest).Axis) && biteq((*dest).ToMeter, old((*dest).ToMeter)) && biteq((*dest).FromGreenwich, old((*dest).FromGreenwich)) && (*dest).datum == old((*dest).datum)
+//@   modifies **source, **dest
